@@ -866,7 +866,12 @@ impl<'a> CompilerState<'a> {
                 let mut px = pair.into_inner();
                 let mut s = self.compile_quoted_string(px.next().unwrap())?;
                 let size = if let Some(x) = px.next() {
-                    Some(self.parse_calc(x.into_inner())? as u32)
+                    let start = x.as_span().start();
+                    let n = self.parse_calc(x.into_inner())?;
+                    if !(0..=0xffff).contains(&n) {
+                        return Err(self.syntax_error("Size of asm statement out of range", start));
+                    }
+                    Some(n as u32)
                 } else {
                     None
                 };
